@@ -2,6 +2,9 @@
 //! generated inputs and prints one line per operation (`<op tokens> => <observed output>`),
 //! which the Lean driver `mdriver` replays on the model.
 mod clog;
+mod codec;
+mod frame;
+mod tables;
 mod router;
 mod routergen;
 mod topic;
@@ -19,6 +22,9 @@ fn main() {
         "topic" => topic::run(&opts),
         "router" => router::run(&opts),
         "clog" => clog::run(&opts),
+        "frame" => frame::run(&opts),
+        "codec" => codec::run(&opts),
+        "tables" => tables::run(&opts),
         x => {
             eprintln!("unknown sub-command {x}");
             std::process::exit(2);
